@@ -105,6 +105,9 @@ pub struct Spec {
     pub argsel: Vec<(&'static str, Vec<usize>)>,
     /// loops inside the translated statements are ignored (their effect is opaque)
     pub skip_loops: bool,
+    /// integers the function returns are wrapped in this opaque function (parameter `N -> R`), for
+    /// kernels whose other results are values of opaque calls of the abstract type R
+    pub ret_wrap: Option<&'static str>,
     /// comment emitted above the definition
     pub note: &'static str,
 }
@@ -185,7 +188,7 @@ fn base(module: &'static str, group: &'static str, file: &'static str, name: &'s
         err_enums: vec!["Error", "MmapRegionError"],
         state: vec![], vars: vec![], step: None, loop_idx: None, until: None, param_tys: vec![], canon_params: vec![],
         recv_groups: vec![], id_methods: vec![], skip_as: vec![], rewrite: vec![], ctors: vec![], argsel: vec![],
-        skip_loops: false, note: "",
+        skip_loops: false, ret_wrap: None, note: "",
     }
 }
 
@@ -298,7 +301,8 @@ pub fn table() -> Vec<Spec> {
         s.canon_params = vec!["buf"];
         s.drop_params = vec!["buf"];
         s.extra = vec![tsize(), ex("buf . len ()", "buf_len", Ty::Int(64)), vlen(), vsize()];
-        s.fns = vec![ofn("copy_from_volatile_slice", "copy_bytes", "N -> N", Ty::Int(64)), ofn("array_copy_to", "array_copy_to", "N -> N", Ty::Int(64))];
+        s.fns = vec![ofn("copy_from_volatile_slice", "copy_bytes", "N -> R", Ty::Unknown), ofn("array_copy_to", "array_copy_to", "N -> R", Ty::Unknown), ofn("\u{0}ret", "ret", "N -> R", Ty::Unknown)];
+        s.ret_wrap = Some("ret");
         s.argsel = vec![("copy_from_volatile_slice", vec![2])];
         s.skip = vec!["self . get_array_ref :: < T > (0 , count) . unwrap ()"];
         s.rewrite = vec![("source . copy_to (buf)", "array_copy_to (count)")];
@@ -338,7 +342,8 @@ pub fn table() -> Vec<Spec> {
         s.canon_params = vec!["buf"];
         s.drop_params = vec!["buf"];
         s.extra = vec![tsize(), ex("buf . len ()", "buf_len", Ty::Int(64)), addr_p(), nelem(), nelem_l(), esz()];
-        s.fns = vec![ofn("copy_from_volatile_slice", "copy_bytes", "(N * N) -> N -> N", Ty::Int(64))];
+        s.fns = vec![ofn("copy_from_volatile_slice", "copy_bytes", "(N * N) -> N -> R", Ty::Unknown), ofn("\u{0}ret", "ret", "N -> R", Ty::Unknown)];
+        s.ret_wrap = Some("ret");
         s.argsel = vec![("copy_from_volatile_slice", vec![1, 2])];
         s.rewrite = vec![("source . len ()", "source . 1")];
         s.skip = vec!["guard . as_ptr () as * const Packed < T >"];
